@@ -970,7 +970,40 @@ func (r *Run) liftForPattern(s string, decl []string) (string, bool) {
 			return "", false
 		}
 	}
+	// names of macro definitions that expand to boolean structure (a merged slice value, say) are replaced by
+	// constants equal to them
+	for _, sym := range lineSymbols(s) {
+		if r.ctx.hasBoolStructure(sym, map[string]bool{}) {
+			op := r.ctx.opaqueFor(sym)
+			s = replaceSymbol(s, sym, op)
+		}
+	}
 	return s, true
+}
+
+// replaceSymbol replaces whole-token occurrences of a symbol in an s-expression.
+func replaceSymbol(s, sym, by string) string {
+	var b strings.Builder
+	i := 0
+	for i < len(s) {
+		k := strings.Index(s[i:], sym)
+		if k < 0 {
+			b.WriteString(s[i:])
+			break
+		}
+		k += i
+		end := k + len(sym)
+		okL := k == 0 || s[k-1] == '(' || s[k-1] == ' '
+		okR := end == len(s) || s[end] == ')' || s[end] == ' '
+		b.WriteString(s[i:k])
+		if okL && okR {
+			b.WriteString(by)
+		} else {
+			b.WriteString(sym)
+		}
+		i = end
+	}
+	return b.String()
 }
 
 // cellRange: a memory cell of a machine integer type holds a value of that type - asserted for ground cells that a
